@@ -111,7 +111,8 @@ def refine(case, d, use_model, with_probes):
     if d2 is not None and d2["index"] == i and d2["kind"] == d["kind"]:
         d = dict(d, props=[p for p in d["props"] if p != "C10"])
     else:
-        d = dict(d, props=["C10"])
+        # only the handle misbehaves: C10 — and the operation's own property as experienced through the handle
+        d = dict(d, props=["C10"] + [p for p in d["props"] if p != "C10"])
     return d
 
 
@@ -157,8 +158,15 @@ class Family:
             st, au = CFGS[i % 4]
             if g.r.random() < 0.08:
                 g.filter_extra = [""]         # the empty measurement name as filter / handle, rarely
+            if self.prop == "C07" and i % 5 == 0:
+                g.hard = True                 # line breaks, delimiters, quotes, non-ASCII in keys and values
             ln = g.r.randint(2, maxlen)
-            cases.append({"cfg": ["cfg", st, au],
+            enc = None
+            if st == "csv" and self.prop in ("C01", "C02", "C03") and i % 6 == 0:
+                # awkward strings (CR/LF, quotes, delimiters, non-ASCII), half of them in a non-default encoding
+                enc = "utf-16" if i % 12 == 0 else None
+                g.hard = True
+            cases.append({"cfg": ["cfg", st, au], **({"enc": enc} if enc else {}),
                           "ops": gen_history(g, ln, st == "csv", w, 0.08 if self.prop == "C11" else 0.03)})
         return cases
 
@@ -276,9 +284,15 @@ class Family:
             if self.prop not in d["props"]:
                 foreign += 1
                 continue
-            res.findings.append(self.make_finding(case, d, model_ok, with_probes))
-            if len(res.findings) >= 6:
+            f = self.make_finding(case, d, model_ok, with_probes)
+            # findings that match a known-finding signature must not crowd out new ones
+            if f.signature is not None:
+                if sum(1 for x in res.findings if x.signature == f.signature) >= 2:
+                    continue
+            res.findings.append(f)
+            if sum(1 for x in res.findings if x.signature is None) >= 4:
                 break
+        res.findings.sort(key=lambda f: (f.signature is not None, f.kind == "correspondence"))
         res.notes.append(f"disagreements attributed to other properties (reported by their own checks): {foreign}")
         return res
 
